@@ -429,6 +429,7 @@ func C12(e *core.Env) int {
 		rep.Exhaustive = true
 	}
 	c12Shared(e, rep, bin, root)
+	c12EnumSiblings(e, rep, bin, root)
 	c12Invalid(e, rep, bin, root)
 	return rep.Finish()
 }
@@ -762,6 +763,96 @@ func c12Shared(e *core.Env, rep *core.Report, bin, root string) {
 		rep.NonTrivial(fmt.Sprintf("shared|%s|%s|%s|%v", scs[i].key, scs[i].conv, scs[i].meth, scs[i].first))
 	}
 	rep.Extra["shared_submethod_scenarios"] = len(scs)
+}
+
+// c12EnumSiblings: the same enum types are converted by two sibling methods, or by two converters of one run, only
+// one of which switches enum handling off (enum no / enum:exclude). Each keeps its own effective value - the one that
+// is built first must not decide for the other (observed in the emitted method bodies: name-driven switch vs cast).
+func c12EnumSiblings(e *core.Env, rep *core.Report, bin, root string) {
+	type sc struct {
+		name   string
+		level  string // method | converter
+		line   string
+		offOne bool // the alphabetically first method / converter carries the line
+	}
+	var scs []sc
+	i := 0
+	// method level is not part of this: a method with `enum no` reuses the enum helper a sibling has already caused
+	// (existing methods are found by signature before any rule is consulted), see DESIGN 5.1 "not judged"
+	for _, level := range []string{"converter"} {
+		for _, line := range []string{"enum no", "enum:exclude vcase/es/p:KA", "enum:exclude .*:K."} {
+			if level == "method" && line != "enum no" {
+				continue // enum:exclude is a converter setting
+			}
+			for _, first := range []bool{true, false} {
+				scs = append(scs, sc{fmt.Sprintf("es%02d", i), level, line, first})
+				i++
+			}
+		}
+	}
+	viols := make([]*core.Viol, len(scs))
+	core.Parallel(len(scs), func(i int) {
+		s := scs[i]
+		dir := filepath.Join(root, s.name)
+		types := "type KA int\nconst ( A1 KA = 1; A2 KA = 2 )\ntype InA struct{ K KA }\ntype OutA struct{ K q.KB }\ntype InB struct{ K KA; L []KA }\ntype OutB struct{ K q.KB; L []q.KB }\n"
+		qsrc := "package q\n\ntype KB int\nconst ( A2 KB = 1; A1 KB = 2 )\n"
+		var src string
+		if s.level == "method" {
+			la, lb := "\t// goverter:"+s.line+"\n", ""
+			if !s.offOne {
+				la, lb = lb, la
+			}
+			src = "package p\n\nimport \"vcase/es/q\"\n\n" + types + "\n// goverter:converter\n// goverter:enum:unknown @ignore\ntype Conv interface {\n" + la + "\tAlpha(source InA) OutA\n" + lb + "\tBeta(source InB) OutB\n}\n"
+		} else {
+			ca, cb := "// goverter:"+s.line+"\n", "// goverter:enum:unknown @ignore\n"
+			if !s.offOne {
+				ca, cb = cb, ca
+			}
+			src = "package p\n\nimport \"vcase/es/q\"\n\n" + types + "\n// goverter:converter\n" + ca + "type AConv interface {\n\tAlpha(source InA) OutA\n}\n\n// goverter:converter\n" + cb + "type ZConv interface {\n\tBeta(source InB) OutB\n}\n"
+		}
+		src = strings.ReplaceAll(src, "vcase/es/", "vcase/"+s.name+"/")
+		writeFiles(dir, map[string]string{"p/input.go": src, "q/q.go": qsrc})
+		gr := runGen(e, bin, dir, dir, []string{"gen", "./p"}, nil)
+		out := gr.Files["p/generated/generated.go"]
+		det := fmt.Sprintf("%s-level %q on the %s of two siblings\nexit=%d stderr=%s\n--- input ---\n%s\n--- output ---\n%s", s.level, s.line, map[bool]string{true: "first (Alpha)", false: "second (Beta)"}[s.offOne], gr.Exit, head(gr.Stderr, 800), src, head(out, 3000))
+		bad := func(sum string) {
+			viols[i] = &core.Viol{Kind: "sibling_isolation", Case: s.name, Summary: sum, Detail: det, Dir: dir, Tags: []string{"setting:enum", "enum-siblings"}}
+		}
+		if gr.Exit != 0 {
+			bad("two siblings converting one enum pair, one of them with " + s.line + ": generation failed: " + firstLine(gr.Stderr))
+			return
+		}
+		bodies := methodBodies(out)
+		for _, m := range []string{"Alpha", "Beta"} {
+			wantOff := (m == "Alpha") == s.offOne
+			b, ok := bodies[m]
+			if !ok {
+				bad("emitted method " + m + " not found")
+				return
+			}
+			// the pair is converted inline or by a generated helper of the same converter
+			if hm := regexp.MustCompile(`c\.(pKAToQKB\d*)\(`).FindStringSubmatch(b); hm != nil {
+				b += "\n" + bodies[hm[1]]
+			}
+			isEnum := strings.Contains(b, "switch ")
+			if !isEnum && !strings.Contains(b, "q.KB(source") {
+				bad("neither a name-driven switch nor a cast found for KA -> KB in method " + m)
+				return
+			}
+			if isEnum == wantOff {
+				bad(fmt.Sprintf("enum: method %s converts KA -> KB %s although its effective enum setting is %s (the sibling's %q decided)", m, map[bool]string{true: "by name (switch)", false: "by a plain cast"}[isEnum], map[bool]string{true: "off", false: "on"}[wantOff], s.line))
+				return
+			}
+		}
+	})
+	for i := range scs {
+		rep.Evaluations++
+		if viols[i] != nil {
+			rep.Violation(viols[i])
+		}
+		rep.NonTrivial(fmt.Sprintf("enumsiblings|%s|%s|%v", scs[i].level, scs[i].line, scs[i].offOne))
+	}
+	rep.Extra["enum_sibling_scenarios"] = len(scs)
 }
 
 // namesCLI: the diagnostic says that the setting was given on the command line (wording is not prescribed).
